@@ -1,6 +1,8 @@
 package executor
 
 import (
+	"errors"
+
 	"github.com/buildbuildio/pebbles/gqlerrors"
 	"github.com/buildbuildio/pebbles/planner"
 )
@@ -55,6 +57,11 @@ func NewDepthExecutorManager(ctx *ExecutionContext) *DepthExecutorManager {
 func (dem *DepthExecutorManager) Execute() (map[string]interface{}, error) {
 	executionRequests := make([]*ExecutionRequest, 0)
 	errs := gqlerrors.ErrorList{}
+
+	// plan without any steps, f.e. node query without inline fragments
+	if dem.depthExecutors[0] == nil {
+		return nil, errors.New("query plan has no steps to execute")
+	}
 
 	// for initial step construct root queries
 	for _, step := range dem.depthExecutors[0].QueryPlanSteps {
